@@ -5,7 +5,7 @@ import random
 import re
 import subprocess
 
-from vflib import core, build
+from vflib import core, build, locale_synth
 
 PID = "C08"
 ALLOC_RE = re.compile(r"\b(malloc|calloc|realloc|strdup|vasprintf|newlocale|duplocale)\s*\(")
@@ -49,6 +49,11 @@ def shard_fn(shard, nshards, seed, tier, exe, workloads, ndouble):
     for _ in range(ndouble // nshards):
         w = rng.randrange(len(workloads))
         queue.append((w, rng.randrange(1, 40), -1, rng.randrange(1, 12)))
+    if tier == "thorough":
+        # every pair (k, k+d), d = 1..12, for every workload: the second failure hits the error path taken after the first
+        for w in mine:
+            for d in range(1, 13):
+                queue.append((w, 1, 0, d))
     facts = []       # (w, k, fired, site, kind, out, verdict)
     allocs = {}
     crashes_per_w = {}
@@ -57,12 +62,9 @@ def shard_fn(shard, nshards, seed, tier, exe, workloads, ndouble):
         rounds += 1
         cases = []
         for (w, k0, k1, k2) in queue:
-            if k1 == -1:
-                cases.append(("w%d.%d.%d" % (w, k0, k2), ["W %d %d %d %d" % (w, k0, k0, k2)]))
-            else:
-                cases.append(("w%d.%d.0" % (w, k0), ["W %d %d 0" % (w, k0)]))
+            cases.append(("w%d.%d.%d.%s" % (w, k0, k2, "p" if k1 == -1 else "r"), ["W %d %d %d %d" % (w, k0, k0 if k1 == -1 else 0, k2)]))
         queue = []
-        results, crashes = core.run_script(exe, cases, tag="c08", timeout=1200)
+        results, crashes = core.run_script(exe, cases, env={"LOCPATH": locale_synth.LOCDIR}, tag="c08", timeout=1200)
         cmdmap = dict(cases)
         for cid, lines in list(results.items()) + [(cr.cid, cr.partial) for cr in crashes]:
             for ln in lines:
@@ -76,7 +78,7 @@ def shard_fn(shard, nshards, seed, tier, exe, workloads, ndouble):
                 elif ln.startswith("F "):
                     f = ln.split()
                     d = dict(x.split("=", 1) for x in f[3:])
-                    facts.append((int(f[1]), int(f[2]), int(d["fired"]), d["site"], d["kind"], d["out"], d["v"], cid.endswith(".0")))
+                    facts.append((int(f[1]), int(f[2]), int(d["fired"]), d["site"], d["kind"], d["out"], d["v"], cid.split(".")[2] == "0", int(cid.split(".")[2])))
         for cr in crashes:
             kind, frame = cr.summary()
             ks = [ln.split() for ln in cr.partial if ln.startswith("K ")]
@@ -85,13 +87,13 @@ def shard_fn(shard, nshards, seed, tier, exe, workloads, ndouble):
             cat = workloads[w][1]
             sh.violation("C08/%s/%s/%s" % ("hang" if cr.kind == "hang" else "crash", kind, frame),
                          "%s with allocation #%d failed: %s in %s" % (workloads[w][0], k, kind, frame),
-                         {"driver": "faultdrv", "variant": "asan", "script": ["W %d %d %d" % (w, k, k)], "stderr": cr.stderr[-3000:], "workload": workloads[w][0], "fault_index": k})
+                         {"driver": "faultdrv", "variant": "asan", "env": {"LOCPATH": locale_synth.LOCDIR}, "script": ["W %d %d %d %d" % (w, k, k, int(cr.cid.split(".")[2]))], "stderr": cr.stderr[-3000:], "workload": workloads[w][0], "fault_index": k})
             sh.count("fault_points_crashed")
             crashes_per_w[w] = crashes_per_w.get(w, 0) + 1
-            if cr.cid.endswith(".0") and crashes_per_w[w] <= 10:
-                queue.append((w, k + 1, 0, 0))
+            if cr.cid.endswith(".r") and crashes_per_w[w] <= 10:
+                queue.append((w, k + 1, 0, int(cr.cid.split(".")[2])))
     sites = symbolize(exe, {f[3] for f in facts} | {m.group(1) for f in facts for m in [re.search(r"site-([0-9a-f]+)", f[6])] if m})
-    for (w, k, fired, site, akind, outc, v, single) in facts:
+    for (w, k, fired, site, akind, outc, v, single, k2off) in facts:
         name, cat = workloads[w]
         sh.evaluations += 1
         fn, loc = sites.get(site, ("?", "?"))
@@ -100,7 +102,8 @@ def shard_fn(shard, nshards, seed, tier, exe, workloads, ndouble):
         else:
             sh.count("fault_points_beyond_last_allocation")
         sh.count("category.%s" % cat)
-        sh.nontrivial("%s/%d/%s" % (name, k, "d" if not single else "s"))
+        sh.nontrivial("%s/%d/%d" % (name, k, k2off))
+        sh.count("fault_points.single" if single else "fault_points.double")
         if v != "ok":
             facet = v.split(":")[0]
             detail = ""
@@ -115,7 +118,7 @@ def shard_fn(shard, nshards, seed, tier, exe, workloads, ndouble):
                 # print buffer failed.  Any other facet (leak, crash, changed caller object) or any other fault site keeps its own key.
                 key = "C08/serializer-ignores-printbuf-failure"
             sh.violation(key, "%s with allocation #%d (%s at %s %s) failed: %s" % (name, k, akind, fn, loc, v),
-                         {"driver": "faultdrv", "variant": "asan", "script": ["W %d %d %d" % (w, k, k)], "workload": name, "fault_index": k, "fault_site": "%s %s" % (fn, loc), "verdict": v})
+                         {"driver": "faultdrv", "variant": "asan", "env": {"LOCPATH": locale_synth.LOCDIR}, "script": ["W %d %d %d %d" % (w, k, k, k2off)], "workload": name, "fault_index": k, "fault_site": "%s %s" % (fn, loc), "verdict": v})
         if len(sh.samples) < 2 and fired and k > 3:
             sh.samples.append({"workload": name, "failed_allocation": k, "site": "%s (%s) at %s" % (fn, akind, loc), "outcome": outc, "verdict": v})
     for w, n in allocs.items():
@@ -126,6 +129,7 @@ def shard_fn(shard, nshards, seed, tier, exe, workloads, ndouble):
 
 def run(tier, seed):
     bdir = build.build("asan")
+    locale_synth.ensure()
     exe = bdir + "/faultdrv"
     chk = core.Check(PID, tier, seed, level="fault_enumeration")
     res, cr = core.run_script(exe, [("list", ["L"])], tag="c08l")
